@@ -945,3 +945,152 @@ Proof.
     + cbn [fst snd app]. unfold ws_sim. rewrite Hrun, ws_run_closed. reflexivity.
     + left. reflexivity.
 Qed.
+
+(* ---- coap_read_session: keep reading while frames are returned ---- *)
+
+Lemma ws_step_closed_inv c m b : ws_step c m b = (MClosed, []) -> m = MClosed.
+Proof.
+  destruct m as [f line|h|mask size acc|]; cbn [ws_step]; try reflexivity.
+  - destruct ((b =? 10) && negb (ws_has_nul line)).
+    + destruct (ws_process_line c f (ws_strip_cr line)); discriminate.
+    + destruct (ws_http_buf - 1 <=? len (line ++ [b])); discriminate.
+  - destruct (len (h ++ [b]) <? 2); [discriminate|].
+    destruct (wsc_server c && negb (fh_masked (ws_fh (nth 1 (h ++ [b]) 0)))); [discriminate|].
+    destruct (len (h ++ [b]) <? fh_hl (ws_fh (nth 1 (h ++ [b]) 0))); [discriminate|].
+    unfold ws_hdr_done. repeat case_if; discriminate.
+  - destruct (len (acc ++ [b]) =? size); discriminate.
+Qed.
+
+Lemma ws_run_closed_inv c : forall x m, ws_run c m x = (MClosed, []) -> m = MClosed.
+Proof.
+  induction x as [|b x IH]; intros m H; cbn [ws_run] in H; [inversion H; reflexivity|].
+  destruct (ws_step c m b) as [m1 e1] eqn:Es. destruct (ws_run c m1 x) as [m2 e2] eqn:Er.
+  inversion H; subst m2. apply app_eq_nil in H2. destruct H2 as (-> & ->).
+  specialize (IH m1 Er). subst m1. eapply ws_step_closed_inv. eassumption.
+Qed.
+
+Lemma ws_abs_len s : (length (snd (ws_abs s)) <= length (w_http s) + length (w_rdh s))%nat.
+Proof.
+  unfold ws_abs. destruct (w_closed s); cbn [snd length]; [lia|].
+  destruct (w_up s); cbn [negb snd]; [|lia]. destruct (w_allhdr s); cbn [snd length]; lia.
+Qed.
+
+Lemma ws_session_loop_spec c :
+  wsc_fix c = ws_fixed -> ws_drain_buf <= wsc_rxbuf c ->
+  forall fuel s avail s' a' evs,
+  ws_winv c s -> w_closed s = false -> wfb avail ->
+  (length (snd (ws_abs s)) + length avail < fuel)%nat ->
+  ~ In WZero (snd (ws_run c (fst (ws_abs s)) (snd (ws_abs s) ++ avail))) ->
+  ws_session_loop fuel c s avail = (s', a', evs) ->
+  ws_sim c (fst (ws_abs s)) (snd (ws_abs s) ++ avail) evs (fst (ws_abs s')) (snd (ws_abs s') ++ a') /\
+  ws_qinv c s' /\ wfb a' /\ (length a' <= length avail)%nat /\
+  (w_closed s' = false -> a' = [] \/ (length a' < length avail)%nat).
+Proof.
+  intros Hfix Hdb. induction fuel as [|fu IH]; intros s avail s' a' evs W Hc Wa Hfu Hz H; [lia|].
+  cbn [ws_session_loop] in H.
+  destruct (ws_read c s (wsc_rxbuf c) avail) as [[[s1 r] a1] e1] eqn:Hrd.
+  pose proof (ws_read_spec c s avail s1 r a1 e1 Hfix Hdb W Hc Wa Hz Hrd) as (Hla & Wa1 & Hsim & Hpost).
+  destruct r as [p| |].
+  - (* a frame *)
+    rewrite Hfix in H. cbn [wsf_strand ws_fixed andb] in H. cbn [ws_evr] in Hsim.
+    destruct (w_closed s1) eqn:Hc1; cbn [negb] in H.
+    + inversion H; subst s' a' evs. clear H.
+      repeat split; try assumption. { left. assumption. } intros; congruence.
+    + destruct Hpost as [Hcl|(_ & Hw & Hu & Ha & Hmu)]; [congruence|].
+      destruct (ws_session_loop fu c s1 a1) as [[s2 a2] e2] eqn:Hl.
+      inversion H; subst s' a' evs. clear H.
+      assert (Habs1 : ws_abs s1 = (MHdr [], w_rdh s1)).
+      { unfold ws_abs. rewrite Hc1, Hu, Ha. reflexivity. }
+      assert (Hz1 : ~ In WZero (snd (ws_run c (fst (ws_abs s1)) (snd (ws_abs s1) ++ a1))))
+        by (eapply ws_sim_nozero; eassumption).
+      assert (Hfu1 : (length (snd (ws_abs s1)) + length a1 < fu)%nat) by (rewrite Habs1; cbn [snd]; lia).
+      destruct (IH s1 a1 s2 a2 e2 Hw Hc1 Wa1 Hfu1 Hz1 Hl) as (Hsim2 & Hq & Wa2 & Hla2 & Hp2).
+      repeat split; try assumption; try lia.
+      * replace (e1 ++ WMsg p :: e2) with ((e1 ++ [WMsg p]) ++ e2) by (rewrite <- app_assoc; reflexivity).
+        eapply ws_sim_trans; eassumption.
+      * intros Hc2. destruct (Hp2 Hc2) as [->|Hlt]; [left; reflexivity|right; lia].
+  - (* nothing to hand over *)
+    inversion H; subst s' a' evs. clear H. cbn [ws_evr] in Hsim. rewrite app_nil_r in Hsim.
+    destruct Hpost as [Hcl|(Hc1 & Hq & Hp)].
+    + repeat split; try assumption. { left. assumption. } intros; congruence.
+    + repeat split; try assumption. intros _. exact Hp.
+  - (* error: the session is disconnected *)
+    destruct Hpost as [Hcl|(_ & Hf)]; [|contradiction].
+    rewrite Hcl in H. inversion H; subst s' a' evs. clear H. cbn [ws_evr] in Hsim.
+    rewrite !app_nil_r in *. rewrite (ws_abs_closed s1) in Hsim by assumption.
+    rewrite (ws_abs_closed (ws_set_closed s1)) by reflexivity.
+    repeat split; try assumption. { left. reflexivity. } cbn [ws_set_closed w_closed]. intros; congruence.
+Qed.
+
+(* ---- the event loop between two arrivals ---- *)
+
+Lemma ws_qinv_run_app c s avail :
+  ws_qinv c s ->
+  ws_run c (fst (ws_abs s)) (snd (ws_abs s) ++ avail) = ws_run c (ws_mode_of s) avail.
+Proof.
+  intros Hq. rewrite ws_run_app, (ws_qinv_run c s Hq). cbn [app].
+  destruct (ws_run c (ws_mode_of s) avail). reflexivity.
+Qed.
+
+Lemma ws_mode_of_closed s : ws_mode_of s = MClosed -> w_closed s = true.
+Proof.
+  unfold ws_mode_of. destruct (w_closed s); [reflexivity|]. destruct (w_up s); cbn [negb]; [|discriminate].
+  destruct (w_allhdr s); discriminate.
+Qed.
+
+Theorem ws_pump_spec c :
+  wsc_fix c = ws_fixed -> ws_drain_buf <= wsc_rxbuf c ->
+  forall fuel s avail s' evs,
+  ws_qinv c s -> wfb avail -> (length avail < fuel)%nat ->
+  ~ In WZero (snd (ws_run c (ws_mode_of s) avail)) ->
+  ws_pump fuel c s avail = (s', evs) ->
+  ws_run c (ws_mode_of s) avail = (ws_mode_of s', evs) /\ ws_qinv c s'.
+Proof.
+  intros Hfix Hdb. induction fuel as [|fu IH]; intros s avail s' evs Hq Wa Hfu Hz H; [lia|].
+  destruct avail as [|b0 av].
+  { cbn [ws_pump] in H. inversion H; subst. split; [reflexivity|assumption]. }
+  set (avail := b0 :: av) in *.
+  cbn [ws_pump] in H. fold avail in H.
+  destruct (w_closed s) eqn:Hc.
+  { inversion H; subst. unfold ws_mode_of at 1. rewrite Hc. rewrite ws_run_closed.
+    unfold ws_mode_of. rewrite Hc. split; [reflexivity|assumption]. }
+  unfold ws_session_read in H. rewrite Hfix in H. cbn [wsf_buf ws_fixed] in H.
+  destruct (ws_session_loop (S (S (length (w_http s) + length (w_rdh s) + length avail))) c s avail)
+    as [[s1 a1] e1] eqn:Hl.
+  rewrite <- (ws_qinv_run_app c s avail Hq) in Hz |- *.
+  pose proof (ws_abs_len s) as Habl.
+  assert (Hfu0 : (length (snd (ws_abs s)) + length avail <
+                  S (S (length (w_http s) + length (w_rdh s) + length avail)))%nat) by lia.
+  destruct (ws_session_loop_spec c Hfix Hdb _ s avail s1 a1 e1 (ws_qinv_winv c s Hq) Hc Wa Hfu0 Hz Hl)
+    as (Hsim & Hq1 & Wa1 & Hla & Hp).
+  assert (Hz1 : ~ In WZero (snd (ws_run c (ws_mode_of s1) a1))).
+  { rewrite <- (ws_qinv_run_app c s1 a1 Hq1). eapply ws_sim_nozero; eassumption. }
+  unfold ws_sim in Hsim. rewrite (ws_qinv_run_app c s1 a1 Hq1) in Hsim.
+  assert (Hstuck : e1 = [] -> len a1 = len avail -> False).
+  { intros -> Hlen. destruct (w_closed s1) eqn:Hc1.
+    - (* closing emits an event *)
+      unfold ws_mode_of at 1 in Hsim. rewrite Hc1 in Hsim. rewrite ws_run_closed in Hsim. cbn [app] in Hsim.
+      rewrite (ws_qinv_run_app c s avail Hq) in Hsim. apply ws_run_closed_inv in Hsim.
+      apply ws_mode_of_closed in Hsim. congruence.
+    - destruct (Hp eq_refl) as [->|Hlt]; unfold len in Hlen; subst avail; cbn [length] in *; lia. }
+  assert (Hrec : forall s2 e2, ws_pump fu c s1 a1 = (s2, e2) ->
+                 ws_run c (fst (ws_abs s)) (snd (ws_abs s) ++ avail) = (ws_mode_of s2, e1 ++ e2) /\ ws_qinv c s2).
+  { intros s2 e2 Hp2.
+    destruct (w_closed s1) eqn:Hc1.
+    - (* closed: the rest is ignored *)
+      assert (Hp2' : (s2, e2) = (s1, [])).
+      { destruct fu; destruct a1 as [|x a1']; cbn [ws_pump] in Hp2; rewrite ?Hc1 in Hp2; congruence. }
+      inversion Hp2'; subst s2 e2.
+      rewrite Hsim. unfold ws_mode_of at 1. rewrite Hc1, ws_run_closed.
+      unfold ws_mode_of. rewrite Hc1. split; [reflexivity|assumption].
+    - assert (Hfu1 : (length a1 < fu)%nat).
+      { destruct (Hp eq_refl) as [->|Hlt]; subst avail; cbn [length] in *; lia. }
+      destruct (IH s1 a1 s2 e2 Hq1 Wa1 Hfu1 Hz1 Hp2) as (Hr2 & Hq2).
+      rewrite Hsim, Hr2. split; [reflexivity|assumption]. }
+  destruct e1 as [|ev e1'].
+  - destruct (len a1 =? len avail) eqn:El.
+    + exfalso. apply Hstuck; [reflexivity|lia].
+    + destruct (Hrec s' evs H) as (Hr & Hq'). cbn [app] in Hr. split; assumption.
+  - destruct (ws_pump fu c s1 a1) as [s2 e2] eqn:Hp2. inversion H; subst s' evs.
+    destruct (Hrec s2 e2 eq_refl) as (Hr & Hq'). split; assumption.
+Qed.
